@@ -45,12 +45,15 @@ pub fn gen_case(prop: &str, verif_seed: u64, idx: u64) -> BtReplay {
     let mut rng = Rng::new(seed);
     let page = *rng.pick(&[4096usize, 4096, 8192, 16384]);
     let cache = *rng.pick(&[16usize, 24, 32, 64, 10000]);
-    let n = if rng.chance(25) { rng.range(150, 400) } else { rng.range(10, 120) } as usize;
+    // a tenth of the trees are tall: enough cells for three levels with several interior pages
+    let tall = rng.chance(10);
+    let n = if tall { rng.range(600, 1400) } else if rng.chance(25) { rng.range(150, 400) } else { rng.range(10, 120) } as usize;
     let keyspace = (n as i64 * *rng.pick(&[1i64, 2, 4])).max(8);
     let mode = rng.below(6);
     // one size per tree (open finding D31) and small enough never to need an overflow page at any
     // page size / min keys of the swarm (open findings D31b/D32)
-    let payload_len = if std::env::var("AXSIM_NOGUARD").map(|g| g.contains("payload_400")).unwrap_or(false) { 400 } else { *rng.pick(&[8usize, 24, 104, 200]) };
+    let payload_len = if tall { *rng.pick(&[104usize, 200, 200, 400]) } else { *rng.pick(&[8usize, 24, 104, 200, 400]) };
+    let page = if tall { 4096 } else { page };
     let mut ops = vec![];
     let mut asc = 0i64;
     let mut desc = keyspace;
@@ -93,7 +96,7 @@ pub fn gen_case(prop: &str, verif_seed: u64, idx: u64) -> BtReplay {
     }
     ops.push(BtOp::Scan(true));
     ops.push(BtOp::Scan(false));
-    BtReplay { property: prop.into(), engine: "E3b-btreesim".into(), seed, page, cache, min_keys: rng.range(3, 6) as usize, siblings: rng.range(1, 3) as usize, key_kind: if std::env::var("AXSIM_NOGUARD").map(|g| g.contains("payload_400")).unwrap_or(false) && rng.chance(25) { 3 } else { rng.below(3) as u8 }, payload_len, events: ops, violation: None }
+    BtReplay { property: prop.into(), engine: "E3b-btreesim".into(), seed, page, cache, min_keys: rng.range(3, 6) as usize, siblings: rng.range(1, 3) as usize, key_kind: if rng.chance(20) { 3 } else { rng.below(3) as u8 }, payload_len, events: ops, violation: None }
 }
 
 /// the harness's own order over keys
@@ -158,6 +161,19 @@ pub fn audit_structure(d: &Dump) -> Result<(), String> {
         let exp_next = leaves.get(i + 1).map(|x| x.id);
         if l.prev != exp_prev || l.next != exp_next {
             return Err(format!("leaf {}: sibling links prev={:?} next={:?}, key order says prev={:?} next={:?}", l.id, l.prev, l.next, exp_prev, exp_next));
+        }
+    }
+    // the same for every interior level (balancing finds a leaf's left cousin through its
+    // parent's prev link, so a stale link there silently cuts leaves out of the chain later)
+    let max_depth = d.pages.iter().map(|p| p.depth).max().unwrap_or(0);
+    for lvl in 1..max_depth {
+        let row: Vec<&axmosdb::verif::facade::btree::PageInfo> = d.pages.iter().filter(|p| !p.is_leaf && p.depth == lvl).collect();
+        for (i, n) in row.iter().enumerate() {
+            let exp_prev = if i == 0 { None } else { Some(row[i - 1].id) };
+            let exp_next = row.get(i + 1).map(|x| x.id);
+            if n.prev != exp_prev || n.next != exp_next {
+                return Err(format!("interior page {} (depth {lvl}): sibling links prev={:?} next={:?}, key order says prev={:?} next={:?}", n.id, n.prev, n.next, exp_prev, exp_next));
+            }
         }
     }
     let mut all: Vec<OKey> = vec![];
@@ -290,10 +306,12 @@ pub fn run_case(case: &BtReplay, idx: u64) -> RunResult {
         };
         let before_free;
         let before_total;
+        let before_list: Vec<u64>;
         {
             let d0 = tree.dump();
             before_free = d0.free_list.len();
             before_total = d0.total_pages;
+            before_list = d0.free_list.clone();
         }
         let mut mutated = true;
         let res: Result<(), String> = match op {
@@ -396,10 +414,12 @@ pub fn run_case(case: &BtReplay, idx: u64) -> RunResult {
         };
         util::fnv(&mut fp, format!("{op:?} {}", res.is_ok()).as_bytes());
         if let Err(e) = res {
-            if e.contains("out of memory") && (case.cache <= 16 || (case.cache <= 32 && matches!(op, BtOp::Scan(_)))) {
-                // (a scan keeps every leaf it has visited latched, so a full scan of a tree larger than
-                // the cache is "one operation the cache cannot hold")
-                // the one permitted failure: a cache too small to hold one operation; no verdict afterwards
+            if e.contains("out of memory") && case.cache <= 32 {
+                // the one permitted failure: an explicit out-of-memory error from a cache too small to hold
+                // one operation (a rebalance keeps the path, up to 2 x siblings + 1 nodes per level and their
+                // frontiers latched until it is done: three levels with 3 siblings per side need more than 24
+                // frames). C10 is quantified over page size, minimum keys and siblings, not over cache sizes;
+                // no verdict on anything after the error
                 bump("runs_ended_by_permitted_oom", 1);
                 break;
             }
@@ -413,6 +433,19 @@ pub fn run_case(case: &BtReplay, idx: u64) -> RunResult {
         }
         if mutated {
             let d = tree.dump();
+            if std::env::var("AXSIM_BTDUMP").is_ok() {
+                // diagnostic only: shape of the interior levels after every mutation of the last ops
+                if i + 6 >= case.events.len() || audit_structure(&d).is_err() {
+                    eprintln!("--- after op {i} {op:?}");
+                    for p in d.pages.iter().filter(|p| !p.is_leaf || p.depth <= 1) {
+                        let keys: Vec<String> = p.cells.iter().map(|c| format!("{:?}->{:?}", c.key, c.left_child)).collect();
+                        eprintln!("  page {} depth {} leaf {} prev {:?} next {:?} right {:?} cells {}", p.id, p.depth, p.is_leaf, p.prev, p.next, p.right_child, keys.join(" "));
+                    }
+                    for p in d.pages.iter().filter(|p| p.is_leaf) {
+                        eprintln!("  leaf {} prev {:?} next {:?} n {} first {:?} last {:?}", p.id, p.prev, p.next, p.cells.len(), p.cells.first().map(|c| &c.key), p.cells.last().map(|c| &c.key));
+                    }
+                }
+            }
             if let Err(e) = audit_structure(&d) {
                 viol = Some(Violation { oracle: "O-structure".into(), event: i, detail: format!("after op {i} {op:?}: {e}") });
                 break;
@@ -430,7 +463,15 @@ pub fn run_case(case: &BtReplay, idx: u64) -> RunResult {
                     viol = Some(Violation { oracle: "O-pages".into(), event: i, detail: format!("after op {i} {op:?}: {e}") });
                     break;
                 }
-                if d.total_pages > before_total && before_free > 0 && !d.free_list.is_empty() {
+                // The free list is a queue (pages are taken at its head and released at its tail). If the
+                // list after the operation still starts with a non-empty tail piece of the list before it,
+                // those pages were free during the whole operation, so no allocation may have grown the
+                // file. (Nothing is concluded when the old list was used up: later releases refill it.)
+                let survived = (0..before_list.len()).any(|k| d.free_list.len() >= before_list.len() - k && d.free_list[..before_list.len() - k] == before_list[k..]);
+                if d.total_pages > before_total && before_free > 0 && !d.free_list.is_empty() && !survived {
+                    bump("file_grew_after_free_list_was_used_up", 1);
+                }
+                if d.total_pages > before_total && survived {
                     viol = Some(Violation { oracle: "O-pages".into(), event: i, detail: format!("after op {i} {op:?}: the file grew from {before_total} to {} pages although the free list held {before_free} pages before and still holds {}", d.total_pages, d.free_list.len()) });
                     break;
                 }
